@@ -221,3 +221,40 @@ theorem mod_add_carry_unique (w s r c : Nat) (hr : r < 2 ^ w) (h : s = r + c * 2
   · rw [Nat.add_mul_div_right _ _ hp, Nat.div_eq_of_lt hr, Nat.zero_add]
 
 end MidnightZK.C07
+
+namespace MidnightZK.C07
+
+/-- Little-endian concatenation of limbs `(bits, value)`. -/
+def concatLE : List (Nat × Nat) → Nat
+  | [] => 0
+  | (k, a) :: t => a + 2 ^ k * concatLE t
+
+def bitsTotal : List (Nat × Nat) → Nat
+  | [] => 0
+  | (k, _) :: t => k + bitsTotal t
+
+/-- The same concatenation on the spreaded limbs. -/
+def spreadConcat : List (Nat × Nat) → Nat
+  | [] => 0
+  | (k, a) :: t => spreadFuel k a + 4 ^ k * spreadConcat t
+
+theorem spread_concatLE : ∀ (l : List (Nat × Nat)), (∀ ka ∈ l, ka.2 < 2 ^ ka.1) →
+    spreadFuel (bitsTotal l) (concatLE l) = spreadConcat l
+  | [], _ => by simp [bitsTotal, concatLE, spreadConcat, spreadFuel]
+  | (k, a) :: t, h => by
+    simp only [bitsTotal, concatLE, spreadConcat]
+    rw [spread_concat k (bitsTotal t) a (concatLE t) (h (k, a) (by simp)),
+      spread_concatLE t (fun ka hka => h ka (by simp [hka]))]
+
+theorem concatLE_lt : ∀ (l : List (Nat × Nat)), (∀ ka ∈ l, ka.2 < 2 ^ ka.1) →
+    concatLE l < 2 ^ bitsTotal l
+  | [], _ => by simp [bitsTotal, concatLE]
+  | (k, a) :: t, h => by
+    simp only [bitsTotal, concatLE]
+    have h1 := h (k, a) (by simp)
+    have h2 := concatLE_lt t (fun ka hka => h ka (by simp [hka]))
+    rw [pow_add]
+    simp only at h1
+    nlinarith [Nat.two_pow_pos k, Nat.two_pow_pos (bitsTotal t)]
+
+end MidnightZK.C07
